@@ -318,9 +318,92 @@ def step_level(rep, rng, tier):
         rep.not_shown("step-level stream did not exercise a retry (generator too weak)", stats)
 
 
+def screening_step_level(rep, rng, tier):
+    """Whole-step stream with screening: the self-consistency loop of one solve step calls the documented update once per iteration.
+    The step is from psi^n, mu^n to psi^{n+1}: every one of those calls has to start from the state the step started from, and the
+    answered psi' has to satisfy psi' + z |psi'|^2 = w with z, w built from psi^n, mu^n, the reported dt and the covariant Laplacian
+    of the last iteration."""
+    import tempfile
+    from . import meshes, runs
+    from tdgl.solver.solver import TDGLSolver
+    stats = {"steps": 0, "steps_with_several_iterations": 0, "max_calls_in_a_step": 0}
+    plans = ((10.0, 0, False), (1.0, 2, True)) if tier == "quick" else ((10.0, 0, False), (1.0, 2, True), (0.0, 2, False), (10.0, 2, True))
+    for gam_, nterm, adaptive in plans:
+        dev = meshes.make_device(rng, holes=0, terminals=nterm, max_edge_length=1.0, probe_points=False, gamma=gam_)
+        calls = []
+        orig_static = TDGLSolver.solve_for_psi_squared
+
+        def recording(calls=calls, **kw):
+            out = orig_static(**kw)
+            calls.append((np.array(kw["psi"], copy=True), np.array(kw["mu"], copy=True), float(kw["dt"]), kw["psi_laplacian"].copy(),
+                          np.array(kw["epsilon"], copy=True), out is not None))
+            return out
+
+        def on_step(solver, state, kw, res, calls=calls, gam_=gam_, nterm=nterm, adaptive=adaptive, dev=dev):
+            psi0, mu0 = np.asarray(kw["psi"]), np.asarray(kw["mu"])
+            answered = [c for c in calls if c[5]]
+            stats["steps"] += 1
+            stats["max_calls_in_a_step"] = max(stats["max_calls_in_a_step"], len(answered))
+            stats["steps_with_several_iterations"] += 1 if len(answered) > 1 else 0
+            case = {"gamma": gam_, "terminals": nterm, "adaptive": adaptive, "step": state["step"], "euler_applications": len(answered)}
+            for ci, c in enumerate(calls):
+                if not (np.array_equal(c[0], psi0) and np.array_equal(c[1], mu0)):
+                    rep.violation("screening: iteration %d of the self-consistency loop started the documented update from a state other "
+                                  "than the one the step started from (psi^n, mu^n): the order parameter is advanced more than once "
+                                  "per time step" % ci,
+                                  {**case, "max_abs_dpsi_vs_step_start": float(np.max(np.abs(c[0] - psi0))),
+                                   "max_abs_dmu_vs_step_start": float(np.max(np.abs(c[1] - mu0)))})
+                    break
+            if answered:
+                _, _, dt, lap_m, eps_now, _ = answered[-1]
+                g, u = float(dev.layer.gamma), float(dev.layer.u)
+                a2 = np.abs(psi0) ** 2
+                U = np.exp(-1j * mu0 * dt)
+                z = (g ** 2 / 2) * U * psi0
+                w = z * a2 + U * (psi0 + dt / u * np.sqrt(1 + g ** 2 * a2) * ((eps_now - a2) * psi0 + lap_m @ psi0))
+                p = np.asarray(res.psi)
+                resid = np.abs(p + z * np.abs(p) ** 2 - w)
+                scale = np.abs(w) + np.abs(z) * np.abs(p) ** 2 + 1e-300
+                fx = np.asarray(solver.operators.fixed_sites, dtype=int) if getattr(solver.operators, "fixed_sites", None) is not None else []
+                if len(fx):
+                    resid[fx] = 0.0
+                if abs(float(res.dt) - dt) > 0 or float(np.max(resid / scale)) > 1e-8:
+                    rep.violation("screening: the answered step does not satisfy psi' + z|psi'|^2 = w with z, w from the state the step "
+                                  f"started from (relative residual {float(np.max(resid / scale)):.2e})",
+                                  {**case, "reported_dt": float(res.dt), "dt_of_last_update": dt})
+            calls.clear()
+
+        with tempfile.TemporaryDirectory(prefix="pyt_c02s_") as td:
+            opts = runs.make_options(td, solve_time=0.05 if not adaptive else 0.2, dt_init=2e-3, dt_max=2e-2, adaptive=adaptive, save_every=100,
+                                     include_screening=True, screening_tolerance=1e-3)
+            solver = TDGLSolver(dev, opts, applied_vector_potential=0.5,
+                                terminal_currents={"source": 2.0, "drain": -2.0} if nterm else None)
+            solver.solve_for_psi_squared = recording
+            orig_update = solver.update
+
+            def wrapped(state, running_state, dt, orig_update=orig_update, solver=solver, on_step=on_step, **kwargs):
+                res = orig_update(state, running_state, dt, **kwargs)
+                on_step(solver, dict(state), kwargs, res)
+                return res
+
+            solver.update = wrapped
+            try:
+                solver.solve()
+            except RuntimeError as e:
+                if "converge" not in str(e):
+                    raise
+                stats["runs_that_failed_to_converge"] = stats.get("runs_that_failed_to_converge", 0) + 1
+    rep.count(stats["steps"])
+    rep.nontrivial(("screening-step-level", stats["steps_with_several_iterations"] > 0))
+    rep.coverage["screening_step_level"] = stats
+    if stats["steps_with_several_iterations"] == 0:
+        rep.not_shown("screening step-level stream: no step needed more than one self-consistency iteration (generator too weak)", stats)
+
+
 def run(rep: common.Report, tier: str, seed: int, replay=None) -> int:
     rep.use_props(common.check_props("C02"))
     step_level(rep, random.Random(seed * 31 + 5), tier)
+    screening_step_level(rep, random.Random(seed * 31 + 6), tier)
     rng = random.Random(seed * 7919 + 2)
     ngroups = 4500 if tier == "quick" else 60000
     kinds = ["plain"] * 6 + ["strong"] * 3 + ["tiny"]
